@@ -78,7 +78,24 @@ RECURSIVE DemSum(_, _, _, _)
 DemSum(s, d, t, i) == IF i > Len(d) THEN Zero
                       ELSE Add(Mul(Mul(N(d[i].base), PatMult(s, d[i].pat, t)), N(s.DM)), DemSum(s, d, t, i + 1))
 Requested(s, nd, t) == DemSum(s, nd.dem, t, 1)
-DDDemand(s, r, nd) == Close(N(r.dem[nd.name]), Requested(s, nd, r.t), Sci(1, -12), TolF)
+\* with options.time.pattern_interpolation the multiplier is linear between the value of the current pattern step and
+\* the next one (wrapping): P * mult = P * last + (next - last) * ((t + PatStart) mod P), kept scaled by P to stay exact
+PatMultP(s, pat, t) ==
+  IF pat = "" THEN FromInt(s.Pat)
+  ELSE LET m == s.patterns[pat] IN
+       IF Len(m) = 0 THEN FromInt(s.Pat)
+       ELSE IF Len(m) = 1 THEN Mul(FromInt(s.Pat), N(m[1]))
+       ELSE LET tau == t + s.PatStart
+                k == (tau \div s.Pat) % Len(m)
+                lastM == N(m[k + 1])
+                nextM == N(m[((k + 1) % Len(m)) + 1])
+            IN  Add(Mul(FromInt(s.Pat), lastM), Mul(Sub(nextM, lastM), FromInt(tau % s.Pat)))
+RECURSIVE DemSumP(_, _, _, _)
+DemSumP(s, d, t, i) == IF i > Len(d) THEN Zero
+                       ELSE Add(Mul(Mul(N(d[i].base), PatMultP(s, d[i].pat, t)), N(s.DM)), DemSumP(s, d, t, i + 1))
+DDDemand(s, r, nd) ==
+  IF s.interp THEN Close(Mul(N(r.dem[nd.name]), FromInt(s.Pat)), DemSumP(s, nd.dem, r.t, 1), Mul(Sci(1, -12), FromInt(s.Pat)), TolF)
+  ELSE Close(N(r.dem[nd.name]), Requested(s, nd, r.t), Sci(1, -12), TolF)
 
 \* ------------------------------------------------------------------ C02 link laws
 HeadAt(r, n) == N(r.head[n])
